@@ -390,6 +390,10 @@ def run_shard(spec):
                     name = str(site[0]) if site else ""
                     if cur in workers and name in ("service", "_flush_outbufs_below_high_watermark"):
                         focus.update((step, t) for t in tids)
+                    # ... and of the I/O thread inside the teardown (a producer it has just woken may run
+                    # before the teardown is complete)
+                    if cur not in workers and name in ("handle_close", "close", "del_channel"):
+                        focus.update((step, t) for t in tids if t in workers)
                 R.finish(o)
                 acc.count("fault-enum-focus-points", len(focus))
                 rng = random.Random(spec["seed"] * 31 + k)
